@@ -734,9 +734,13 @@ def _canon(logs: Dict[str, bytes]) -> Dict[str, bytes]:
 def execute(scratch: str, world: str, seq: Sequence[Tuple[str, str]], plan: Sequence[Tuple[str, str]],
             modes: Optional[Sequence[int]] = None) -> Dict[str, Any]:
     """Runs the sequence on a fresh world.  modes=None: fault run (plan's raisers installed);
-    modes=(i, j..): baseline run with site k switched off / idle according to SITES[k].modes[i]."""
+    modes=(i, j..): baseline run with site k switched off / idle according to SITES[k].modes[i]; an entry None
+    keeps the fault of that site installed (used only to explain a failing pair by a failing single)."""
     W.reset_globals()
-    env = Env(scratch, "f" if modes is None else "b")
+    if modes is None:
+        modes = [None] * len(plan)
+    fault_run = all(m is None for m in modes)
+    env = Env(scratch, "f" if fault_run else "b")
     env.ex.activate()
     out: Dict[str, Any] = {"abort": None, "bad_result": None, "fired": env.fired, "cfg_ok": True}
     err = io.StringIO()
@@ -749,27 +753,26 @@ def execute(scratch: str, world: str, seq: Sequence[Tuple[str, str]], plan: Sequ
                 over = W.deep_merge(over, s.cfg(env))
             if s.cfg_post is not None:
                 posts.append(s.cfg_post)
-        if modes is not None:
-            for s, mi in zip(sites, modes):
-                m = s.modes[mi]
-                if m.cfg:
-                    over = W.deep_merge(over, m.cfg)
-                if m.cfg_post is not None:
-                    posts.append(m.cfg_post)
+        for s, mi in zip(sites, modes):
+            if mi is None:
+                continue
+            m = s.modes[mi]
+            if m.cfg:
+                over = W.deep_merge(over, m.cfg)
+            if m.cfg_post is not None:
+                posts.append(m.cfg_post)
         cfg = W.make_cfg(over, snap_dir=env.ex.snap_dir)
         for p in posts:
             p(cfg)
-        if modes is None and not all((s.requires is None or s.requires(cfg)) for s in sites):
+        if fault_run and not all((s.requires is None or s.requires(cfg)) for s in sites):
             out["cfg_ok"] = False  # the two gates cannot be open together
             return out
         env.patch(orch_pkg, "t3_deliberate", _planner)
-        if modes is None:
-            for (sname, exc), s in zip(plan, sites):
+        for (_sname, exc), s, mi in zip(plan, sites, modes):
+            if mi is None:
                 s.inject(env, exc)
-        else:
-            for s, mi in zip(sites, modes):
-                if s.modes[mi].stub is not None:
-                    s.modes[mi].stub(env)
+            elif s.modes[mi].stub is not None:
+                s.modes[mi].stub(env)
         state = prep_state(world)
         for h in env.state_hooks:
             h(state)
@@ -793,7 +796,6 @@ def execute(scratch: str, world: str, seq: Sequence[Tuple[str, str]], plan: Sequ
         out["lines"] = lines
         out["turns"] = len(lines) + (1 if out["abort"] or out["bad_result"] else 0)
         out["logs"] = _canon(env.ex.logs())
-        out["all_logs"] = sorted(env.ex.logs(normalise=False).keys())
         return out
     finally:
         env.restore()
@@ -875,7 +877,7 @@ class Checker:
         if nearest is None:
             raise HarnessError("no baseline of %r completed on %s" % (plan, world))
         f, det = _first_diff(r["logs"], nearest[1])
-        res.update(status="logs", file=f, n_base=n_base,
+        res.update(status="logs", file=f, n_base=n_base, logs_bytes=r["logs"],
                    what="canonical logs equal none of the %d off/idle baselines; vs baseline [%s] (faulted vs baseline) %s" % (
                        n_base, "+".join(s.modes[m].name for s, m in zip(sites, nearest[0])), det))
         return res
@@ -904,11 +906,27 @@ def judge(ck: Checker, world, seq, plan) -> Tuple[Dict[str, Any], List[Tuple[str
         return res, [(_sig_single(plan[0][0], res), desc)]
     # pair: blame a member whose single already fails (same exception type), else the combination
     out = []
-    for p in plan:
+    explained = False
+    for i, p in enumerate(plan):
         r1 = ck.check(world, seq, [p])
-        if r1["status"] not in ("ok", "skip"):
-            out.append((_sig_single(p[0], r1), desc + "  [single %s!%s alone: %s]" % (p[0], p[1], r1["what"])))
-    if not out:
+        if r1["status"] in ("ok", "skip"):
+            continue
+        out.append((_sig_single(p[0], r1), desc + "  [single %s!%s alone: %s]" % (p[0], p[1], r1["what"])))
+        if r1["status"] != "logs" or res["status"] != "logs":
+            explained = True  # an abort / missing result of a member explains the pair completely
+            continue
+        # the member deviates on its own: the pair is explained by it iff the pair's records equal those of a run in
+        # which this member is still faulted and the OTHER member is switched off / idle
+        q = SITES[plan[1 - i][0]]
+        for mq in range(len(q.modes)):
+            modes = [None, None]
+            modes[1 - i] = mq
+            r2 = execute(ck.scratch, world, seq, plan, modes=modes)
+            ck.turns += r2.get("turns", 0)
+            if not (r2["abort"] or r2["bad_result"]) and r2["logs"] == res["logs_bytes"]:
+                explained = True
+                break
+    if not explained:
         a, b = sorted(s.split("@")[0] for s, _ in plan)
         out.append(("pair:%s+%s:%s" % (a, b, res["status"]), desc))
     return res, out
@@ -969,10 +987,6 @@ def _worker(chunk, st: Stats, scratch_root: str, excs: List[str], pair_excs: Lis
                     rank = json.dumps([len(plan), len(json.dumps(_case(world, seq, plan))), world, seq, plan])
                     if sig not in best or rank < best[sig][0]:
                         best[sig] = (rank, what, _case(world, seq, plan))
-                if len(sites) == 1 and exc == types[0]:
-                    st.sample({"world": world, "seq": [list(x) for x in seq], "plan": [list(p) for p in plan],
-                               "status": res["status"], "matched_baseline": res.get("matched"),
-                               "fault_fired": fired})
         st.add("baseline_runs", len(ck.base_cache))
         st.add("transitions", ck.turns)  # every run_turn call executed (fault runs and baseline runs)
         for sig, (rank, what, case) in best.items():
@@ -1051,6 +1065,20 @@ def run(run: Run) -> None:
     for sig, (_rank, what, case) in sorted(cands.items()):
         run.violation(sig, what, case)
     micro_t3_trace(run, excs)
+    # a few concrete cases for the evidence file (evaluated here so that the selection does not depend on worker timing)
+    logging.disable(logging.CRITICAL)
+    ck = Checker(run.scratch)
+    for world, seq, plan in (
+            ("W2", SEQ_QUICK[0], [("boot:garbage:array", "-")]),
+            ("W2b", SEQ_QUICK[0], [("gel:gel_apply_promotion", "KeyError")]),
+            ("W1", SEQ_QUICK[1], [("store:apply_deltas:all", "OSError")]),
+            ("W2b", SEQ_QUICK[0], [("refl:reflect", "TypeError")]),
+            ("W1", SEQ_QUICK[0], [("llm:build_llm_adapter", "RuntimeError"), ("sidecar:atomic_write_text", "RuntimeError")]),
+            ("W2", SEQ_QUICK[1], [("boot:load_latest_snapshot", "C20Fault"), ("hybrid:rerank_with_gel", "C20Fault")])):
+        res = ck.check(world, seq, plan)
+        run.sample({"world": world, "seq": [list(x) for x in seq], "plan": [list(p) for p in plan],
+                    "status": res["status"], "matched_baseline": res.get("matched"), "fault_fired": res.get("fired")})
+    logging.disable(logging.NOTSET)
     fired = run.sets.get("sites_fired", set())
     from mc.runner import h64
     never = [s for s in names + ["t3trace:emit_trace"] if h64(s.split("@")[0]) not in fired]
